@@ -138,6 +138,16 @@ def bundled(thorough=False):
            "tp.supported_cooling_process['USER_HLINE'] = tp.ThermalProcess(['H'], '2.0e-27')\n")
     out.append(Case("T-user-one-reactant", {"pre": [{"op": "exec", "code": reg}], "network": dict(prim, cooling=["CIC_HI", "USER_H2LINE", "USER_HLINE"])}, ref="meta", pseudo=["Photon"], tags={"bundled", "thermal"}))
     out.append(Case("T-primordial-cool2", {"network": dict(prim, cooling=["CIC_HI", "RC_HII"])}, ref="meta", pseudo=["Photon"], tags={"bundled", "thermal"}))
+    # a network merged from two files that overlap: the second file holds another fit of a reaction of the first (same
+    # species and window, other coefficients) and an exact repeat; every line of every file is a reaction of the network
+    from . import encoders as _enc
+    _l = lambda i, r, p_, a: {"reactants": r, "products": p_, "a": a, "b": "0.000e+00", "c": "0.000e+00", "tmin": "-1.00", "tmax": "-1.00", "idx": i, "code": 100}
+    f1 = [_l(1, ["H", "H"], ["H2"], "1.000e-10"), _l(2, ["C", "H"], ["CH"], "2.000e-10"), _l(3, ["CH", "O"], ["CO", "H"], "3.000e-10")]
+    f2 = [_l(4, ["H", "H"], ["H2"], "4.000e-10"), _l(5, ["CO"], ["C", "O"], "5.000e-10"), _l(6, ["C", "H"], ["CH"], "2.000e-10"), _l(7, ["O", "CH"], ["H", "CO"], "7.000e-10")]
+    mo = Case("M-overlapping-files", {"files": [{"name": "a.naunet", "content": "\n".join(_enc.naunet(r) for r in f1) + "\n"}, {"name": "b.naunet", "content": "\n".join(_enc.naunet(r) for r in f2) + "\n"}],
+                                      "network": {"filelist": ["a.naunet", "b.naunet"], "fileformats": ["naunet", "naunet"]}}, ref="fed", tags={"bundled"})
+    mo.fed_lines = f1 + f2
+    out.append(mo)
     if thorough:
         out.append(Case("B-rate12_HO.leeds", {"network": {"filelist": f"{td}/rate12_HO.leeds", "fileformats": "leeds"}}, ref="meta", tags={"bundled", "large"}))
         out.append(Case("B-deuterium.krome", {"network": {"filelist": f"{ex}/deuterium/deuterium.krome", "fileformats": "krome", "elements": ["e", "H", "D", "He", "C", "N", "O"], "pseudo_elements": ["o", "p", "m"]}}, ref="meta", pseudo=["o", "p", "m"], tags={"bundled", "large"}))
